@@ -139,13 +139,17 @@ Inductive op : Type :=
 | OApi (i : nat) (news : list (list oref)) (root : oref).
                                      (* v[i] = f(...): the call created [news] and returned [root] *)
 
-(* allocate the objects created by an API call, in creation order (members first) *)
+Definition live_b (h : list cell) (id : nat) : bool :=
+  match nth_error h id with Some (Live _ _ _) => true | _ => false end.
+
+(* allocate the objects created by an API call, in creation order (members first); an observed
+   member that is not a live object is a malformed observation (guard) *)
 Fixpoint alloc_news (base : nat) (h : list cell) (news : list (list oref)) : rres (list cell) :=
   match news with
   | [] => ROk h
   | ks :: r =>
       let ids := map (resolve base) ks in
-      if forallb (fun id => id <? length h) ids then
+      if forallb (live_b h) ids then
         rbind (incref_all h ids) (fun h1 => alloc_news base (h1 ++ [Live 0 0 ids]) r)
       else RBad BAD_OBS
   end.
@@ -225,8 +229,10 @@ Definition step_gen (thr : nat) (st : state) (o : op) : rres state :=
       let base := length h in
       rbind (alloc_news base h news) (fun h1 =>
       let rid := resolve base root in
-      rbind (incref h1 rid) (fun h2 =>
-      if all_referenced h2 base then assign_temp st h2 i rid else RBad BAD_OBS))
+      if live_b h1 rid then
+        rbind (incref h1 rid) (fun h2 =>
+        if all_referenced h2 base then assign_temp st h2 i rid else RBad BAD_OBS)
+      else RBad BAD_OBS)
   end.
 
 Definition steal_threshold : nat := 1.
